@@ -94,6 +94,16 @@ def gen_cases(rng, n):
         if rng.random() < 0.8:
             gen.simplify_feasible(rng, c)
         c["ops"] = gen_ops(rng, c)
+        if len(c["comps"]) >= 3 and rng.random() < 0.15:
+            # a component shared by two assemblies (the product is a DAG, not a forest)
+            nc = len(c["comps"])
+            desc = lambda x, seen=None: set().union({x}, *[desc(y) for y in c["comps"][x]["children"]])
+            for _ in range(4):
+                par, ch = rng.sample(range(nc), 2)
+                if ch not in c["comps"][par]["children"] and par not in desc(ch):
+                    c["comps"][par]["children"].append(ch)
+                    c["shared_child"] = True
+                    break
         if rng.random() < 0.04:          # the unit_time option (known finding C08/unit-time)
             o = gen.gen_sim_op(rng, c)
             o["unit_time"] = rng.choice([2, 2, 3])
